@@ -49,6 +49,8 @@ const KNOWN_RULES: &[&str] = &[
     "mut_self",
     "vec_alloc",
     "let_else",
+    "str_pattern",
+    "take_read",
 ];
 
 pub fn apply(repo: &str, req: &ItemReq, f: &mut FnUnderEdit) -> Result<(), String> {
@@ -189,6 +191,22 @@ pub fn apply(repo: &str, req: &ItemReq, f: &mut FnUnderEdit) -> Result<(), Strin
         v.visit_block_mut(&mut f.block);
         let n = v.n;
         f.fire("vec_alloc", n);
+    }
+
+    // R20 Pattern-generic str methods with a char literal
+    if has("str_pattern") {
+        let mut v = StrPattern { n: 0 };
+        v.visit_block_mut(&mut f.block);
+        let n = v.n;
+        f.fire("str_pattern", n);
+    }
+
+    // R21 X.take(n).read_to_end(&mut b) -> X.vx_take_read_to_end(n, &mut b)
+    if has("take_read") {
+        let mut v = TakeRead { n: 0 };
+        v.visit_block_mut(&mut f.block);
+        let n = v.n;
+        f.fire("take_read", n);
     }
 
     // R11 generics
@@ -529,6 +547,51 @@ impl syn::parse::Parse for VecRepeat {
     }
 }
 
+// ---------------------------------------------------------------- R21
+struct TakeRead {
+    n: usize,
+}
+impl VisitMut for TakeRead {
+    fn visit_expr_mut(&mut self, e: &mut syn::Expr) {
+        visit_mut::visit_expr_mut(self, e);
+        if let syn::Expr::MethodCall(m) = e {
+            if m.method == "read_to_end" && m.args.len() == 1 {
+                if let syn::Expr::MethodCall(t) = &*m.receiver {
+                    if t.method == "take" && t.args.len() == 1 {
+                        let recv = &t.receiver;
+                        let n = t.args.first().unwrap();
+                        let b = m.args.first().unwrap();
+                        *e = syn::parse_quote!(#recv.vx_take_read_to_end(#n, #b));
+                        self.n += 1;
+                    }
+                }
+            }
+        }
+    }
+}
+
+// ---------------------------------------------------------------- R20
+struct StrPattern {
+    n: usize,
+}
+impl VisitMut for StrPattern {
+    fn visit_expr_mut(&mut self, e: &mut syn::Expr) {
+        visit_mut::visit_expr_mut(self, e);
+        if let syn::Expr::MethodCall(m) = e {
+            if m.method == "starts_with" && m.args.len() == 1 {
+                if let Some(syn::Expr::Lit(l)) = m.args.first() {
+                    if let syn::Lit::Char(_) = &l.lit {
+                        let recv = &m.receiver;
+                        let arg = m.args.first().unwrap();
+                        *e = syn::parse_quote!(vx_starts_with_char(#recv, #arg));
+                        self.n += 1;
+                    }
+                }
+            }
+        }
+    }
+}
+
 // ---------------------------------------------------------------- R11
 pub struct TypeSubst<'a> {
     pub map: &'a BTreeMap<String, String>,
@@ -539,6 +602,19 @@ impl<'a> VisitMut for TypeSubst<'a> {
     fn visit_type_mut(&mut self, t: &mut syn::Type) {
         if let syn::Type::Path(p) = t {
             if p.qself.is_none() {
+                let full = norm(&p.path);
+                if p.path.segments.len() > 1 {
+                    if let Some(rep) = self.map.get(&full) {
+                        match parse_type(rep) {
+                            Ok(nt) => {
+                                *t = nt;
+                                self.n += 1;
+                                return;
+                            }
+                            Err(e) => self.err = Some(e),
+                        }
+                    }
+                }
                 if let Some(id) = p.path.get_ident() {
                     if let Some(rep) = self.map.get(&id.to_string()) {
                         match parse_type(rep) {
